@@ -10,7 +10,7 @@ EXPLANATION = ("The structure of the DCOP is the solver-chosen input: n variable
                "in the bound (the solver's role here is only to carry the structure as a reportable/replayable model).")
 ASSUMPTIONS = ["constraints are neutral relations (values are irrelevant to graph construction)",
                "variable names of mixed lengths (v2, v10, x, ab, v1: lexical, length-first and numeric orders differ) inserted in a chosen order (as listed / reversed)"]
-BOUNDS = {"quick": "n <= 3 variables with m <= 3 constraints, n = 4 with m <= 2; every scope of size <= 3",
+BOUNDS = {"quick": "n <= 3 variables with m <= 3 constraints, n = 4 with m <= 2; every scope of size <= 3; each constraint built either on the DCOP's Variable objects or on equal copies of them",
           "thorough": "n <= 4 variables, m <= 3 constraints (all scopes of size <= 3), n = 5 with m <= 2"}
 OUTSIDE = "more than 5 variables / 3 constraints, scopes above 3, duplicate constraint names"
 CAP_S = {"quick": 600, "thorough": 3600}
@@ -48,7 +48,10 @@ def run(eng, p):
     for j in range(m):
         sc = subsets[eng.choose(len(subsets), "scope_%d" % j)]
         scopes["c%d" % j] = sc
-        dcop.add_constraint(NeutralRelation([V[v] for v in sc], name="c%d" % j))
+        # a constraint may hold its own, equal, Variable objects (what loading two files, or building constraints apart
+        # from the variables, gives)
+        fresh = eng.pick(["shared_objects", "equal_copies"], "variable_objects_%d" % j) == "equal_copies"
+        dcop.add_constraint(NeutralRelation([(Variable(v, d) if fresh else V[v]) for v in sc], name="c%d" % j))
     eng.notes["outcome"] = {"scopes": scopes, "insertion": ins}
     shares = {v: {u for sc in scopes.values() if v in sc for u in sc if u != v} for v in names}
     try:
